@@ -12,7 +12,8 @@ PROPERTY_ID = 'C14'
 RULE = ('Hypothesis draws a family (constant, identity, monomial with exponent 0..6 and prefactor, Legendre degree 0..8 with '
         'domain scale 0.5..3, sine/cosine with alpha in [-3,3], Gauss and periodic Gauss with mean/variance, B-spline with '
         'random knots, degree 1..3 and coefficients), the state dimension 1..4, the coordinate index, whether the dimension is '
-        'passed to the constructor, and evaluation points in the domain (splines: away from knots). Oracle: complex-step '
+        'passed to the constructor, and evaluation points in the domain (splines: away from knots), handed over as float arrays, '
+        'python lists or integer-typed arrays/lists. Oracle: complex-step '
         'differentiation Im f(x + i h e_k)/h (h = 1e-30) of the evaluation for the first derivative and of the analytic first '
         'derivative for the second (Richardson-extrapolated central differences for splines); zero in foreign coordinates; '
         'gradient/hessian entry-wise equal to partial/partial2; evaluation on a d x m array equals point-wise evaluation. '
@@ -34,7 +35,8 @@ def fn_case(draw):
     d = draw(st.integers(1, 4))
     idx = draw(st.integers(0, d - 1))
     c = {'family': fam, 'd': d, 'index': idx, 'explicit_dim': draw(st.booleans()), 'seed': draw(gen.SEED),
-         'm': draw(st.integers(1, 5))}
+         'm': draw(st.integers(1, 5)),
+         'point_type': draw(st.sampled_from(['float', 'float', 'float_list', 'int_array', 'int_list'])) if fam != 'bspline' else 'float'}
     fl = lambda a, b: draw(st.floats(a, b, allow_nan=False, allow_infinity=False))
     if fam == 'monomial':
         c['exponent'] = draw(st.integers(0, 6))
@@ -96,6 +98,12 @@ def points(c, rng, lo, hi, extra):
         j = rng.integers(0, len(k) - 1, c['m'])
         xi = k[j] + 0.05 + rng.uniform(0, 1, c['m']) * (k[j + 1] - k[j] - 0.1)
     x[c['index'], :] = xi
+    if c.get('point_type', 'float').startswith('int'):
+        # integer-valued points (handed over with an integer dtype / as python ints); inside every family's domain
+        x = rng.integers(-1, 2, x.shape).astype(float) if c['family'] == 'legendre' and c.get('domain', 1.0) < 1.0 else \
+            rng.integers(-2, 3, x.shape).astype(float)
+        if c['family'] == 'legendre':
+            x = np.clip(x, -np.floor(c.get('domain', 1.0)), np.floor(c.get('domain', 1.0)))
     return x
 
 
@@ -137,8 +145,39 @@ def body_fn(case):
     require(arr.shape == (X.shape[1],), 'array_eval', 'f(X) has shape %s for %d points' % (arr.shape, X.shape[1]))
     close(arr, vals, 1e-13, 1.0 + np.max(np.abs(vals)), 'array_eval', 'f(X)[j] vs f(X[:, j])')
 
+    pt = case.get('point_type', 'float')
+    if pt != 'float':
+        lab.add('point_' + pt)
+
+    def as_given(v):
+        # the point in the form the caller hands it over
+        if pt == 'int_array':
+            return v.astype(np.int64)
+        if pt == 'int_list':
+            return [int(t) for t in v]
+        if pt == 'float_list':
+            return [float(t) for t in v]
+        return v
+
+    if pt == 'int_array':
+        arr_i = np.asarray(f(X.astype(np.int64)))
+        close(arr_i, vals, 1e-13, 1.0 + np.max(np.abs(vals)), 'array_eval', 'f(X) on an integer array')
     for j in range(X.shape[1]):
         x = X[:, j].copy()
+        xg = as_given(x)
+        if pt != 'float':
+            g = np.asarray(f.gradient(xg), dtype=float)
+            close(np.array(float(f(xg))), np.array(vals[j]), 1e-13, 1.0 + abs(vals[j]), 'array_eval', 'f(x) at a %s point' % pt)
+            for k in range(d):
+                pk = float(f.partial(xg, k))
+                close(np.array(pk), np.array(float(f.partial(x, k))), 1e-13, 1.0 + abs(pk), 'partial_value', 'partial(%d) at a %s point' % (k, pt))
+                close(np.array(g[k]), np.array(float(f.partial(x, k))), 1e-13, 1.0 + abs(pk), 'gradient_value', 'gradient[%d] at a %s point' % (k, pt))
+            try:
+                hh = np.asarray(f.hessian(xg), dtype=float)
+                hf = np.asarray(f.hessian(x), dtype=float)
+                close(hh, hf, 1e-13, 1.0 + np.max(np.abs(hf)), 'hessian_value', 'hessian at a %s point' % pt)
+            except NotImplementedError:
+                pass
         g = np.asarray(f.gradient(x), dtype=float)
         require(g.shape == (d,), 'gradient_shape', 'gradient has shape %s' % (g.shape,))
         for k in range(d):
@@ -180,5 +219,5 @@ def nt(labels):
 
 
 SUBCHECKS = [
-    Sub('functions', fn_case(), body_fn, nt, quick=500, thorough=6000, shards_quick=4, classes=FAMILIES + ['dim>1', 'lazy_dimension', 'non_test_parameter']),
+    Sub('functions', fn_case(), body_fn, nt, quick=500, thorough=6000, shards_quick=4, classes=FAMILIES + ['dim>1', 'lazy_dimension', 'non_test_parameter', 'point_int_array', 'point_int_list', 'point_float_list']),
 ]
